@@ -76,9 +76,16 @@ func Bootstrap(cfg Config) func(n *Node, ctx sdk.Context) {
 		for _, d := range Denoms {
 			rich = rich.Add(sdk.NewCoin(d, osmomath.NewInt(1_000_000_000_000_000)))
 		}
-		for i := 0; i < NActors; i++ {
+		for i := 0; i < NActors-1; i++ {
 			n.Fund(ctx, Actor(i), rich)
 		}
+		// the last actor is poor: its larger operations fail late (e.g. a pool creation that cannot pay the creation fee
+		// or the initial liquidity fails after the pool-created hooks have run and is rolled back)
+		poor := sdk.NewCoins(coin(Bond, 1_000_000_000_000), coin("uosmo", 1_500_000_000))
+		for _, d := range Denoms[2:] {
+			poor = poor.Add(coin(d, 50_000_000))
+		}
+		n.Fund(ctx, Actor(NActors-1), poor)
 		for _, e := range a.EpochsKeeper.AllEpochInfos(ctx) {
 			e.StartTime = Base
 			a.EpochsKeeper.DeleteEpochInfo(ctx, e.Identifier)
